@@ -115,30 +115,47 @@ theorem perspective_some_guards (S : ApproxLaws F) (fovy aspect n f : F) (m : M4
 /-- the focal point of `planar`: `-(1 / inv_f)`, `inv_f = tan(fovy/2) * 2 / height` -/
 def planarFocal (fovy h : F) : F := -((1 : F) / planarInvF fovy h)
 
-/-- complete characterisation of the panics of `planar` -/
+/-- "zero" as the model writes it (order relation only) -/
+theorem zero_iff (x : F) : (¬ x < 0 ∧ ¬ 0 < x) ↔ x = 0 :=
+  ⟨fun ⟨a, b⟩ => le_antisymm (not_lt.mp b) (not_lt.mp a), fun e => by subst e; exact ⟨lt_irrefl 0, lt_irrefl 0⟩⟩
+
+theorem planar_prop (B1 H L B3 B4 Tz Hz Hp C : Prop) (hH : H) (hL : ¬ L) :
+    ¬(¬B1 ∧ H ∧ ¬B3 ∧ ¬B4 ∧ ¬(Tz ∧ Hz) ∧ (Tz ∧ Hp ∨ ¬C)) ↔ B1 ∨ L ∨ B3 ∨ B4 ∨ Tz ∧ Hz ∨ ¬(Tz ∧ Hp) ∧ C := by
+  tauto
+
+/-- complete characterisation of the panics of `planar`.  `T = tan(fovy/2)`: with `T = 0` and a positive height the focal point
+is at infinity (never between the planes: the orthographic case is always accepted); with `T = 0` and height 0 the code's
+`inv_f` is `0/0 = NaN` and the assertion fails -/
 theorem planar_none_iff' (S : ApproxLaws F) (fovy aspect h n f : F) :
     planar fovy aspect h n f = none ↔
       Lits.radFull / 2 ≤ |fovy| ∨ h < 0 ∨ |aspect| ≤ Approx.eps ∨ |f - n| ≤ Approx.eps ∨
-        (min n f ≤ planarFocal fovy h ∧ planarFocal fovy h ≤ max n f) := by
+        (Rad.tan (fovy / two) = 0 ∧ h = 0) ∨
+        (¬ (Rad.tan (fovy / two) = 0 ∧ 0 < h) ∧ min n f ≤ planarFocal fovy h ∧ planarFocal fovy h ≤ max n f) := by
   rw [planar_none_iff]
-  simp only [not_and_or, not_or, not_lt, not_le, Bool.not_eq_false, turnDiv_two,
-    S.absDiffEqD_iff, sabs_eq_abs, sub_zero, abs_abs, smin_eq_min, smax_eq_max, planarFocal,
-    le_abs, min_comm f n, max_comm f n]
-  constructor
-  · rintro (h1 | h1 | h1 | h1 | h1 | h1)
-    · exact Or.inl (Or.inr (le_neg_of_le_neg h1))
-    · exact Or.inl (Or.inl h1)
-    · exact Or.inr (Or.inl h1)
-    · exact Or.inr (Or.inr (Or.inl h1))
-    · exact Or.inr (Or.inr (Or.inr (Or.inl h1)))
-    · exact Or.inr (Or.inr (Or.inr (Or.inr h1)))
-  · rintro ((h1 | h1) | h1 | h1 | h1 | h1)
-    · exact Or.inr (Or.inl h1)
-    · exact Or.inl (le_neg_of_le_neg h1)
-    · exact Or.inr (Or.inr (Or.inl h1))
-    · exact Or.inr (Or.inr (Or.inr (Or.inl h1)))
-    · exact Or.inr (Or.inr (Or.inr (Or.inr (Or.inl h1))))
-    · exact Or.inr (Or.inr (Or.inr (Or.inr (Or.inr h1))))
+  have g1 : (-(Angle.turnDiv (Lits.radFull : F) 2) < fovy ∧ fovy < Angle.turnDiv (Lits.radFull : F) 2) ↔
+      ¬ (Lits.radFull / 2 ≤ |fovy|) := by
+    rw [turnDiv_two, le_abs, not_or, not_le, not_le]
+    constructor
+    · rintro ⟨a, b⟩; exact ⟨b, by linarith⟩
+    · rintro ⟨a, b⟩; exact ⟨by linarith, a⟩
+  have g3 : (0 ≤ h) ↔ ¬ h < 0 := not_lt.symm
+  have g4 : absDiffEqD (sabs aspect) (0 : F) = false ↔ ¬ |aspect| ≤ Approx.eps := by
+    rw [S.absDiffEqD_false_iff, sabs_eq_abs, sub_zero, abs_abs, not_le]
+  have g5 : absDiffEqD f n = false ↔ ¬ |f - n| ≤ Approx.eps := by
+    rw [S.absDiffEqD_false_iff, not_le]
+  have g6 : (-((1 : F) / planarInvF fovy h) < smin f n ∨ smax f n < -((1 : F) / planarInvF fovy h)) ↔
+      ¬ (min n f ≤ planarFocal fovy h ∧ planarFocal fovy h ≤ max n f) := by
+    rw [smin_eq_min, smax_eq_max, min_comm, max_comm, not_and_or, not_le, not_le]; rfl
+  have g7 : ∀ (hh : 0 ≤ h), (¬ 0 < h) ↔ h = 0 := fun hh => ⟨fun x => le_antisymm (not_lt.mp x) hh, fun e => by rw [e]; exact lt_irrefl 0⟩
+  simp only [zero_iff]
+  by_cases hh : 0 ≤ h
+  · have hn : ¬ h < 0 := not_lt.mpr hh
+    rw [g7 hh, ← and_assoc, g1, g4, g5, g6]
+    exact planar_prop _ _ _ _ _ _ _ _ _ hh hn
+  · have hl : h < 0 := not_le.mp hh
+    constructor
+    · intro _; exact Or.inr (Or.inl hl)
+    · intro _ hc; exact hh hc.2.2.1
 /-- `|fovy| ≥ half turn` -/
 theorem planar_none_of_fovy (fovy aspect h n f : F) (hf : Lits.radFull / 2 ≤ |fovy|) :
     planar fovy aspect h n f = none := by
@@ -167,16 +184,35 @@ theorem planar_none_of_near_eq_far (S : ApproxLaws F) (fovy aspect h n f : F) (h
   rintro ⟨-, -, -, -, h1, -⟩
   rw [hnf, S.absDiffEqD_refl] at h1
   exact Bool.noConfusion h1
-/-- focal point between the planes (inclusive) -/
-theorem planar_none_of_focal (fovy aspect h n f : F)
+/-- focal point between the planes (inclusive) -- for a finite focal point (`tan(fovy/2) ≠ 0`); with `tan(fovy/2) = 0` and a
+positive height (fovy = 0, the orthographic case) the code's focal point is an infinity and never lies between the planes -/
+theorem planar_none_of_focal (fovy aspect h n f : F) (hT : Rad.tan (fovy / two) ≠ 0)
     (hb : min n f ≤ planarFocal fovy h ∧ planarFocal fovy h ≤ max n f) :
     planar fovy aspect h n f = none := by
   rw [planar_none_iff]
-  rintro ⟨-, -, -, -, -, h1⟩
+  rintro ⟨-, -, -, -, -, -, h1⟩
   rw [smin_eq_min, smax_eq_max, min_comm, max_comm] at h1
-  rcases h1 with h1 | h1
+  rcases h1 with h1 | h1 | h1
+  · exact hT ((zero_iff _).mp h1.1)
   · exact absurd hb.1 (not_le.mpr h1)
   · exact absurd hb.2 (not_le.mpr h1)
+/-- the orthographic case: with `tan(fovy/2) = 0` and a positive height the focal-point assertion never fires, wherever the
+planes are (the code's focal point is an infinity) -/
+theorem planar_some_of_tan_zero (S : ApproxLaws F) (fovy aspect h n f : F) (hT : Rad.tan (fovy / two) = 0)
+    (h1 : -(Lits.radFull / 2) < fovy) (h2 : fovy < Lits.radFull / 2) (h3 : 0 < h)
+    (h4 : Approx.eps < |aspect|) (h5 : Approx.eps < |f - n|) :
+    planar fovy aspect h n f = some (planarMat fovy aspect h n f) := by
+  apply planar_some
+  refine ⟨by rw [turnDiv_two]; exact h1, by rw [turnDiv_two]; exact h2, h3.le, ?_, ?_, fun hc => hc.2 h3,
+    Or.inl ⟨(zero_iff _).mpr hT, h3⟩⟩
+  · rw [S.absDiffEqD_false_iff, sabs_eq_abs, sub_zero, abs_abs]; exact h4
+  · rw [S.absDiffEqD_false_iff]; exact h5
+/-- `tan(fovy/2) = 0` with height 0: `inv_f = 0/0`, the assertion fails -/
+theorem planar_none_of_nan (fovy aspect h n f : F) (hT : Rad.tan (fovy / two) = 0) (h0 : h = 0) :
+    planar fovy aspect h n f = none := by
+  rw [planar_none_iff]
+  rintro ⟨-, -, -, -, -, h1, -⟩
+  exact h1 ⟨(zero_iff _).mpr hT, by rw [h0]; exact lt_irrefl 0⟩
 end reject
 
 /-! ## acceptance ⇒ mapping, over `ℝ` with the half turn `π` -/
